@@ -287,9 +287,14 @@ def run_multi(case):
             pc = np.asarray(f.parameter_cov_mat, float)
         if np.any(np.abs(pv - p_hat[idx]) > 0.03 * np.where(sd[idx] > 0, sd[idx], 1.0)):
             raise Violation("member-values", f"member {r.names}: {pv.tolist()} vs multi GLS {p_hat[idx].tolist()}")
+        # the multi-fit's own matrix was judged against GLS above (with the conditioning-aware tolerance); the members must report its sub-blocks - an identity,
+        # not a second numerical comparison with GLS at a fixed 1 % (that one failed once in a seed sweep, at 1.5 %, and did not even reproduce in a fresh process)
+        with guard("multi results"):
+            mC = np.asarray(multi.parameter_cov_mat, float)
+            mE = np.asarray(multi.parameter_errors, float)
         sc = np.sqrt(np.outer(np.diag(C)[idx], np.diag(C)[idx]))
-        if np.any(np.abs(pc - C[np.ix_(idx, idx)]) > 0.01 * sc + 1e-300) or np.any(np.abs(pe - sd[idx]) > 0.01 * sd[idx] + 1e-300):
-            raise Violation("member-covariance", f"member {r.names}: errors {pe.tolist()} cov {pc.tolist()} vs sub-block {C[np.ix_(idx, idx)].tolist()}")
+        if np.any(np.abs(pc - mC[np.ix_(idx, idx)]) > 1e-9 * sc + 1e-300) or np.any(np.abs(pe - mE[idx]) > 1e-9 * sd[idx] + 1e-300):
+            raise Violation("member-covariance", f"member {r.names}: errors {pe.tolist()} cov {pc.tolist()} vs sub-block of the multi-fit's matrix {mC[np.ix_(idx, idx)].tolist()}")
     shared = len(names) < sum(len(r.names) for r in refs)
     return {"nontrivial": shared and len(free) >= 2, "labels": sorted({case["minimizer"], "shared" if shared else "disjoint"} | ({"fixed"} if fixed else set())
                                                                    | ({"member_constraint"} if mcon is not None else set()) | ({"shared_uncertainty"} if shared_err is not None else set()))}
